@@ -649,7 +649,9 @@ def gen_graph(rng, idx):
         i, f = removed
         if rng.random() < 0.75:
             fix = {"op": "set", "node": i, "field": f,
-                   "value": {"k": "list", "l": []} if f == "lr" else v_int(rng.randrange(1, 4))}
+                   "value": {"k": "list", "l": []} if f == "lr" else
+                            v_int(idx * 16 + i) if (classes[i] == C_TK and f == "a") else   # keeps the jobs distinct
+                            v_int(rng.randrange(1, 4))}
         else:
             j = rng.randrange(n)
             fix = {"op": "set", "node": j, "field": "m" if [j, "a"] == removed else "a",
